@@ -24,6 +24,7 @@ import (
 func init() {
 	core.Register("C18.v1.names", opV1Names)
 	core.Register("C18.v1.export", opV1Export)
+	core.Register("C18.v1.exportd", func(a []string) string { return opV1ExportSpelled(core.Atoi(a[0]), a[1:]) })
 	core.Register("C18.v1.bundle", opV1Bundle)
 	core.Register("C18.v1.import", opV1Import)
 	core.Register("C18.v1.classify", opV1Classify)
@@ -83,13 +84,37 @@ func opV1Names(a []string) string {
 
 // mkV1 creates a real v1 key store directory holding exactly the given files (private files 0600,
 // public ones 0644) and opens it without a cache.
-func mkV1(master []byte, files []pair) *v1Store {
+func mkV1(master []byte, files []pair) *v1Store { return mkV1Spelled(master, files, 0) }
+
+// spell returns the key directory <tmp>/ks written in a non-canonical way
+func spell(tmp string, k int) string {
+	switch k {
+	case 1:
+		return tmp + "/ks/"
+	case 2:
+		return tmp + "/./ks"
+	case 3:
+		must(os.MkdirAll(filepath.Join(tmp, "x"), 0o700))
+		return tmp + "/x/../ks"
+	case 4:
+		return tmp + "//ks"
+	case 5:
+		return tmp + "/ks/."
+	}
+	return tmp + "/ks"
+}
+
+const nSpellings = 6
+
+// mkV1Spelled: as mkV1, but the key store and its backuper are given the directory spelled as `spell(k)`
+func mkV1Spelled(master []byte, files []pair, k int) *v1Store {
 	tmp, err := os.MkdirTemp("", "verif-c18-")
 	if err != nil {
 		panic("harness: " + err.Error())
 	}
 	dir := filepath.Join(tmp, "ks")
 	must(os.MkdirAll(dir, 0o700))
+	defer func() {}()
 	for _, f := range files {
 		p := filepath.Join(dir, string(f.name))
 		if !strings.HasPrefix(p, dir+"/") {
@@ -103,11 +128,11 @@ func mkV1(master []byte, files []pair) *v1Store {
 		must(os.WriteFile(p, f.data, mode))
 	}
 	enc, _ := keystore.NewSCellKeyEncryptor(master)
-	ks, err := filesystem.NewFileSystemKeyStoreWithCacheSize(dir, enc, keystore.WithoutCache)
+	ks, err := filesystem.NewFileSystemKeyStoreWithCacheSize(spell(tmp, k), enc, keystore.WithoutCache)
 	if err != nil {
 		panic("harness: " + err.Error())
 	}
-	return &v1Store{dir: dir, ks: ks, enc: enc}
+	return &v1Store{dir: dir, spelled: spell(tmp, k), ks: ks, enc: enc}
 }
 
 func readAll(dir string) []pair {
@@ -182,19 +207,25 @@ func parseSelection(a []string) v1Selection {
 }
 
 func runV1Export(master []byte, fs []pair, sel v1Selection) (*keystore.KeysBackup, error) {
-	s := mkV1(master, fs)
+	return runV1ExportSpelled(master, fs, sel, 0)
+}
+
+func runV1ExportSpelled(master []byte, fs []pair, sel v1Selection, k int) (*keystore.KeysBackup, error) {
+	s := mkV1Spelled(master, fs, k)
 	defer s.close()
 	return s.backuper().Export(sel.ids, sel.mode)
 }
 
-func opV1Export(a []string) string {
+func opV1Export(a []string) string { return opV1ExportSpelled(0, a) }
+
+func opV1ExportSpelled(k int, a []string) string {
 	master := core.UnHex(a[0])
 	fl, rest := takeList(a[1:])
 	var fs []pair
 	for _, f := range fl {
 		fs = append(fs, parsePair(f))
 	}
-	bk, err := runV1Export(master, fs, parseSelection(rest))
+	bk, err := runV1ExportSpelled(master, fs, parseSelection(rest), k)
 	if err != nil {
 		return "err"
 	}
